@@ -52,7 +52,7 @@ func (v Val) String() string {
 	case KBool:
 		return strconv.FormatBool(v.B)
 	case KTime:
-		return v.T.UTC().Format(time.RFC3339)
+		return v.T.UTC().Format(time.RFC3339Nano)
 	}
 	return "?"
 }
@@ -75,7 +75,7 @@ func Lit(v Val) string {
 	case KBool:
 		return strconv.FormatBool(v.B)
 	case KTime:
-		return "datetime(" + v.T.UTC().Format(time.RFC3339) + ")"
+		return "datetime(" + v.T.UTC().Format(time.RFC3339Nano) + ")"
 	case KNull:
 		return "null"
 	}
